@@ -118,7 +118,8 @@ static void finish(const int *handed, const int *cancelled) {
     aws_thread_scheduler_release(ts);
     after_release = 1;
     VS_CHECK(vs_threads_unfinished() == 0, "thread-alive-after-release", "%d thread(s) still running after the last release returned", vs_threads_unfinished());
-    for (int i = 0; i < NT; ++i) check_task(i, handed[i], cancelled[i]);
+    /* S9: task 0 cancels task 2 from the scheduler thread iff it ran - only known now */
+    for (int i = 0; i < NT; ++i) check_task(i, handed[i], cancelled[i] || (reentrant_mode == 2 && i == 2 && reentrant_done));
     VS_CHECK(invoked_after_release == 0, "invoked-after-release", "a task function ran after release returned");
     VS_CHECK(ga.live_blocks == 0, "leak", "%llu allocation(s) (%llu bytes) still live after the last release", (unsigned long long)ga.live_blocks,
              (unsigned long long)ga.live_bytes);
@@ -273,7 +274,7 @@ static void s9(void) {
     finish(h, c);
     /* RUN is legitimate only when the (virtual) clock really reached the task's time - the "timer lands first" deviation
      * can do that; check_task() already demands when >= time for every RUN */
-    VS_CHECK(tl[2].n == 1, "far-future-task-not-invoked-once", "far-future task: %d invocations", tl[2].n);
+    /* check_task() decides: exactly once, or RUN (clock reached its time) followed by the acknowledgement of task 0's cancel */
 }
 
 /* S10: a second reference is held by a client thread; the two owners release concurrently - exactly one of the two
